@@ -13,17 +13,23 @@ open GeosModel.Kernel
 
 /-- the crossing abscissa `x` is strictly right of the grid point `p` -/
 def rightOf (p : Pt) (x : Q) : Bool := (Q.ofInt p.x).lt x
+/-- … strictly left of it -/
+def leftOf (p : Pt) (x : Q) : Bool := x.lt (Q.ofInt p.x)
+
+/-- the abscissa where the line through `a`, `b` meets `2y = y2`, for `a.y ≠ b.y` -/
+def crossX (y2 : Int) (a b : Pt) : Q :=
+  if a.x = b.x then Q.ofInt a.x
+  else Q.add (Q.ofInt a.x) (Q.div ((y2 - 2 * a.y) * (b.x - a.x)) (2 * (b.y - a.y)))
 
 theorem edgeCrossing_straddle {y2 : Int} {a b : Pt}
     (h : (2 * a.y < y2 ∧ y2 < 2 * b.y) ∨ (2 * b.y < y2 ∧ y2 < 2 * a.y)) :
-    edgeCrossing y2 a b = some (if a.x = b.x then Q.ofInt a.x
-      else Q.add (Q.ofInt a.x) (Q.div ((y2 - 2 * a.y) * (b.x - a.x)) (2 * (b.y - a.y)))) := by
+    edgeCrossing y2 a b = some (crossX y2 a b) := by
   have e1 : ¬ (y2 < 2 * a.y ∧ y2 < 2 * b.y) := by omega
   have e2 : ¬ (2 * a.y < y2 ∧ 2 * b.y < y2) := by omega
   have e3 : ¬ a.y = b.y := by omega
   have e4 : ¬ (2 * a.y = y2 ∧ 2 * b.y < y2) := by omega
   have e5 : ¬ (2 * b.y = y2 ∧ 2 * a.y < y2) := by omega
-  unfold edgeCrossing
+  unfold edgeCrossing crossX
   simp only [e1, e2, e3, e4, e5, if_false]
   split <;> rfl
 
@@ -34,18 +40,480 @@ theorem edgeCrossing_same_side {y2 : Int} {a b : Pt}
   · rw [if_neg (by omega), if_pos h]
   · rw [if_pos h]
 
+theorem crosses_none {p a b : Pt} (h : (a.y < p.y ∧ b.y < p.y) ∨ (p.y < a.y ∧ p.y < b.y)) : crosses p a b = false := by
+  have h1 : ¬ (a.y ≤ p.y ∧ p.y < b.y) := by omega
+  have h2 : ¬ (b.y ≤ p.y ∧ p.y < a.y) := by omega
+  simp only [crosses, Bool.and_eq_true, decide_eq_true_eq, h1, h2, if_false]
+theorem crosses_up {p a b : Pt} (h1 : a.y ≤ p.y) (h2 : p.y < b.y) : crosses p a b = decide (det a b p > 0) := by
+  simp only [crosses, Bool.and_eq_true, decide_eq_true_eq, h1, h2, and_self, if_true]
+theorem crosses_down {p a b : Pt} (h1 : b.y ≤ p.y) (h2 : p.y < a.y) : crosses p a b = decide (det a b p < 0) := by
+  have h0 : ¬ (a.y ≤ p.y ∧ p.y < b.y) := by omega
+  simp only [crosses, Bool.and_eq_true, decide_eq_true_eq, h0, h1, h2, and_self, if_true, if_false]
+
+theorem rightOf_crossX_up {p a b : Pt} (h1 : a.y < p.y) (h2 : p.y < b.y) :
+    rightOf p (crossX (2 * p.y) a b) = decide (det a b p > 0) := by
+  unfold crossX rightOf
+  have hd : (0 : Int) < 2 * (b.y - a.y) := by omega
+  rw [Bool.eq_iff_iff]
+  split
+  · rename_i hx
+    have e : ((Q.ofInt p.x).lt (Q.ofInt a.x) = true) ↔ p.x < a.x := by simp [Q.lt, Q.ofInt]
+    rw [e, decide_eq_true_eq]
+    unfold det
+    rw [← hx]
+    constructor <;> intro h <;> nlinarith
+  · simp only [Q.div, if_neg (Int.ne_of_gt hd), if_neg (Int.not_lt.mpr (Int.le_of_lt hd)), Q.add, Q.lt, Q.ofInt, decide_eq_true_eq]
+    push_cast
+    rw [abs_of_pos hd]
+    unfold det
+    constructor <;> intro h <;> nlinarith
+
+theorem rightOf_crossX_down {p a b : Pt} (h1 : b.y < p.y) (h2 : p.y < a.y) :
+    rightOf p (crossX (2 * p.y) a b) = decide (det a b p < 0) := by
+  unfold crossX rightOf
+  have hd : 2 * (b.y - a.y) < (0 : Int) := by omega
+  rw [Bool.eq_iff_iff]
+  split
+  · rename_i hx
+    have e : ((Q.ofInt p.x).lt (Q.ofInt a.x) = true) ↔ p.x < a.x := by simp [Q.lt, Q.ofInt]
+    rw [e, decide_eq_true_eq]
+    unfold det
+    rw [← hx]
+    constructor <;> intro h <;> nlinarith
+  · simp only [Q.div, if_neg (Int.ne_of_lt hd), if_pos hd, Q.add, Q.lt, Q.ofInt, decide_eq_true_eq]
+    push_cast
+    rw [abs_of_neg hd]
+    unfold det
+    constructor <;> intro h <;> nlinarith
+
+theorem leftOf_crossX_up {p a b : Pt} (h1 : a.y < p.y) (h2 : p.y < b.y) :
+    leftOf p (crossX (2 * p.y) a b) = decide (det a b p < 0) := by
+  unfold crossX leftOf
+  have hd : (0 : Int) < 2 * (b.y - a.y) := by omega
+  rw [Bool.eq_iff_iff]
+  split
+  · rename_i hx
+    have e : ((Q.ofInt a.x).lt (Q.ofInt p.x) = true) ↔ a.x < p.x := by simp [Q.lt, Q.ofInt]
+    rw [e, decide_eq_true_eq]
+    unfold det
+    rw [← hx]
+    constructor <;> intro h <;> nlinarith
+  · simp only [Q.div, if_neg (Int.ne_of_gt hd), if_neg (Int.not_lt.mpr (Int.le_of_lt hd)), Q.add, Q.lt, Q.ofInt, decide_eq_true_eq]
+    push_cast
+    rw [abs_of_pos hd]
+    unfold det
+    constructor <;> intro h <;> nlinarith
+
+theorem leftOf_crossX_down {p a b : Pt} (h1 : b.y < p.y) (h2 : p.y < a.y) :
+    leftOf p (crossX (2 * p.y) a b) = decide (det a b p > 0) := by
+  unfold crossX leftOf
+  have hd : 2 * (b.y - a.y) < (0 : Int) := by omega
+  rw [Bool.eq_iff_iff]
+  split
+  · rename_i hx
+    have e : ((Q.ofInt a.x).lt (Q.ofInt p.x) = true) ↔ a.x < p.x := by simp [Q.lt, Q.ofInt]
+    rw [e, decide_eq_true_eq]
+    unfold det
+    rw [← hx]
+    constructor <;> intro h <;> nlinarith
+  · simp only [Q.div, if_neg (Int.ne_of_lt hd), if_pos hd, Q.add, Q.lt, Q.ofInt, decide_eq_true_eq]
+    push_cast
+    rw [abs_of_neg hd]
+    unfold det
+    constructor <;> intro h <;> nlinarith
+
 /-- **the scan's crossing rule is the ray's crossing rule**: for an edge whose end points are not on the line through
 `p`, `Kernel.crosses` holds exactly when the scan records a crossing strictly right of `p` -/
 theorem crosses_eq_scan {p a b : Pt} (ha : a.y ≠ p.y) (hb : b.y ≠ p.y) :
     crosses p a b = (match edgeCrossing (2 * p.y) a b with | none => false | some x => rightOf p x) := by
   rcases Int.lt_or_gt_of_ne ha with ha' | ha' <;> rcases Int.lt_or_gt_of_ne hb with hb' | hb'
-  · rw [edgeCrossing_same_side (Or.inl ⟨by omega, by omega⟩)]
-    simp [crosses]; omega
-  · rw [edgeCrossing_straddle (Or.inl ⟨by omega, by omega⟩)]
-    sorry
-  · rw [edgeCrossing_straddle (Or.inr ⟨by omega, by omega⟩)]
-    sorry
-  · rw [edgeCrossing_same_side (Or.inr ⟨by omega, by omega⟩)]
-    simp [crosses]; omega
+  · rw [edgeCrossing_same_side (Or.inl ⟨by omega, by omega⟩), crosses_none (Or.inl ⟨ha', hb'⟩)]
+  · rw [edgeCrossing_straddle (Or.inl ⟨by omega, by omega⟩), crosses_up (Int.le_of_lt ha') hb']
+    exact (rightOf_crossX_up ha' hb').symm
+  · rw [edgeCrossing_straddle (Or.inr ⟨by omega, by omega⟩), crosses_down (Int.le_of_lt hb') ha']
+    exact (rightOf_crossX_down hb' ha').symm
+  · rw [edgeCrossing_same_side (Or.inr ⟨by omega, by omega⟩), crosses_none (Or.inr ⟨ha', hb'⟩)]
+
+/-- a point on an edge whose end points are off the line sits exactly at the recorded crossing -/
+theorem onSegment_crossing {p a b : Pt} (ha : a.y ≠ p.y) (hb : b.y ≠ p.y) (h : onSegment a b p = true) :
+    ∃ x, edgeCrossing (2 * p.y) a b = some x ∧ rightOf p x = false ∧ leftOf p x = false := by
+  simp only [onSegment, inBox, Bool.and_eq_true, beq_iff_eq, decide_eq_true_eq] at h
+  obtain ⟨hdet, ⟨⟨_, _⟩, h3⟩, h4⟩ := h
+  rcases Int.lt_or_gt_of_ne ha with ha' | ha' <;> rcases Int.lt_or_gt_of_ne hb with hb' | hb'
+  · exfalso; omega
+  · refine ⟨_, edgeCrossing_straddle (Or.inl ⟨by omega, by omega⟩), ?_, ?_⟩
+    · rw [rightOf_crossX_up ha' hb']; simp [hdet]
+    · rw [leftOf_crossX_up ha' hb']; simp [hdet]
+  · refine ⟨_, edgeCrossing_straddle (Or.inr ⟨by omega, by omega⟩), ?_, ?_⟩
+    · rw [rightOf_crossX_down hb' ha']; simp [hdet]
+    · rw [leftOf_crossX_down hb' ha']; simp [hdet]
+  · exfalso; omega
+
+/-! ## counting -/
+
+theorem crossCount_eq {p : Pt} : ∀ (es : List (Pt × Pt)), (∀ e ∈ es, e.1.y ≠ p.y ∧ e.2.y ≠ p.y) →
+    (es.filter (fun e => crosses p e.1 e.2)).length =
+      ((es.filterMap (fun e => edgeCrossing (2 * p.y) e.1 e.2)).filter (rightOf p)).length := by
+  intro es
+  induction es with
+  | nil => intro _; rfl
+  | cons e r ih =>
+    intro h
+    have he := h e List.mem_cons_self
+    have ih' := ih (fun e' he' => h e' (List.mem_cons_of_mem _ he'))
+    have hc := crosses_eq_scan he.1 he.2
+    cases hx : edgeCrossing (2 * p.y) e.1 e.2 with
+    | none =>
+      rw [hx] at hc
+      simp only [List.filter_cons, hc, List.filterMap_cons, hx]
+      simpa using ih'
+    | some x =>
+      rw [hx] at hc
+      simp only [List.filter_cons, hc, List.filterMap_cons, hx]
+      cases hr : rightOf p x <;> simp [ih']
+
+/-- end points of the edges of a ring whose vertices are off the line are off the line -/
+theorem edges_off {p : Pt} {ring : List Pt} (h : ∀ v ∈ ring, v.y ≠ p.y) :
+    ∀ e ∈ edges ring, e.1.y ≠ p.y ∧ e.2.y ≠ p.y :=
+  fun e he => ⟨h _ (mem_of_mem_edges he).1, h _ (mem_of_mem_edges he).2⟩
+
+/-- `locateInRing` when `p` is on no edge: the parity of the ray crossings -/
+theorem locateInRing_off {p : Pt} {ring : List Pt} (h : ∀ e ∈ edges ring, onSegment e.1 e.2 p = false) :
+    locateInRing p ring =
+      if ((edges ring).filter (fun e => crosses p e.1 e.2)).length % 2 == 1 then .interior else .exterior := by
+  unfold locateInRing
+  have : (edges ring).any (fun e => onSegment e.1 e.2 p) = false := by
+    rw [List.any_eq_false]; intro e he; simp [h e he]
+  simp only [this, Bool.false_eq_true, if_false]
+
+def above (p v : Pt) : Bool := decide (p.y < v.y)
+
+theorem edgeCrossing_none_or_some {p a b : Pt} (ha : a.y ≠ p.y) (hb : b.y ≠ p.y) :
+    (above p a = above p b ∧ edgeCrossing (2 * p.y) a b = none) ∨
+    (above p a ≠ above p b ∧ ∃ x, edgeCrossing (2 * p.y) a b = some x) := by
+  unfold above
+  rcases Int.lt_or_gt_of_ne ha with ha' | ha' <;> rcases Int.lt_or_gt_of_ne hb with hb' | hb'
+  · left; exact ⟨by simp [ha', hb', Int.not_lt.mpr (Int.le_of_lt ha'), Int.not_lt.mpr (Int.le_of_lt hb')], edgeCrossing_same_side (Or.inl ⟨by omega, by omega⟩)⟩
+  · right; exact ⟨by simp [ha', hb', Int.not_lt.mpr (Int.le_of_lt ha')], _, edgeCrossing_straddle (Or.inl ⟨by omega, by omega⟩)⟩
+  · right; exact ⟨by simp [ha', hb', Int.not_lt.mpr (Int.le_of_lt hb')], _, edgeCrossing_straddle (Or.inr ⟨by omega, by omega⟩)⟩
+  · left; exact ⟨by simp [ha', hb'], edgeCrossing_same_side (Or.inr ⟨by omega, by omega⟩)⟩
+
+/-- a polyline crosses the line an even number of times iff it ends on the side it started on -/
+theorem polyline_parity {p : Pt} : ∀ (r : List Pt) (a z : Pt), (∀ v ∈ a :: r, v.y ≠ p.y) → (a :: r).getLast? = some z →
+    (ringCrossings (2 * p.y) (a :: r)).length % 2 = if above p a = above p z then 0 else 1 := by
+  intro r
+  induction r with
+  | nil =>
+    intro a z _ hz
+    simp at hz; subst hz
+    simp [ringCrossings, edges]
+  | cons b r ih =>
+    intro a z h hz
+    have hz' : (b :: r).getLast? = some z := by simpa [List.getLast?_cons_cons] using hz
+    have ih' := ih b z (fun v hv => h v (List.mem_cons_of_mem _ hv)) hz'
+    have ha := h a List.mem_cons_self
+    have hb := h b (List.mem_cons_of_mem _ List.mem_cons_self)
+    unfold ringCrossings at ih' ⊢
+    simp only [edges, List.filterMap_cons]
+    rcases edgeCrossing_none_or_some ha hb with ⟨hs, hn⟩ | ⟨hs, x, hx⟩
+    · rw [hn, hs]; exact ih'
+    · rw [hx]
+      simp only [List.length_cons]
+      cases h1 : above p a <;> cases h2 : above p b <;> cases h3 : above p z <;> simp_all <;> omega
+
+/-- a closed ring crosses it an even number of times -/
+theorem ring_crossings_even {p : Pt} {ring : List Pt} (h : ∀ v ∈ ring, v.y ≠ p.y) (hc : ring = [] ∨ isClosedRing ring = true) :
+    (ringCrossings (2 * p.y) ring).length % 2 = 0 := by
+  rcases hc with rfl | hc
+  · simp [ringCrossings, edges]
+  · match ring, hc, h with
+    | a :: r, hc, h =>
+      simp only [isClosedRing, decide_eq_true_eq] at hc
+      have := polyline_parity r a a h hc
+      simpa using this
+
+/-! ## order on the rationals -/
+
+theorem Q.lt_of_le_of_lt' {a b c : Q} (ha : 0 < a.den) (hb : 0 < b.den) (h1 : a.le b = true) (h2 : b.lt c = true) :
+    a.lt c = true := by
+  simp only [Q.le, Q.lt, decide_eq_true_eq] at *
+  have hA : (0 : Int) < a.den := by exact_mod_cast ha
+  have hB : (0 : Int) < b.den := by exact_mod_cast hb
+  have hC : (0 : Int) ≤ c.den := by exact_mod_cast Nat.zero_le _
+  have e1 := mul_le_mul_of_nonneg_right h1 hC
+  have e2 := mul_lt_mul_of_pos_right h2 hA
+  by_contra hcon
+  have e3 := mul_le_mul_of_nonneg_right (not_lt.mp hcon) (le_of_lt hB)
+  nlinarith
+
+theorem Q.lt_of_lt_of_le' {a b c : Q} (hb : 0 < b.den) (hc : 0 < c.den) (h1 : a.lt b = true) (h2 : b.le c = true) :
+    a.lt c = true := by
+  simp only [Q.le, Q.lt, decide_eq_true_eq] at *
+  have hA : (0 : Int) ≤ a.den := by exact_mod_cast Nat.zero_le _
+  have hB : (0 : Int) < b.den := by exact_mod_cast hb
+  have hC : (0 : Int) < c.den := by exact_mod_cast hc
+  have e1 := mul_lt_mul_of_pos_right h1 hC
+  have e2 := mul_le_mul_of_nonneg_right h2 hA
+  by_contra hcon
+  have e3 := mul_le_mul_of_nonneg_right (not_lt.mp hcon) (le_of_lt hB)
+  nlinarith
+
+theorem Q.lt_asymm' {a b : Q} (h : a.lt b = true) : b.lt a = false := by
+  simp only [Q.lt, decide_eq_true_eq, decide_eq_false_iff_not] at *; omega
+
+/-! ## the sorted crossing list and its pairs -/
+
+def QPos (l : List Q) : Prop := ∀ q ∈ l, 0 < q.den
+
+theorem insertQ_perm (x : Q) : ∀ l : List Q, (insertQ x l).Perm (x :: l)
+  | [] => List.Perm.refl _
+  | y :: r => by
+    simp only [insertQ]
+    split
+    · exact ((insertQ_perm x r).cons y).trans (List.Perm.swap x y r)
+    · exact List.Perm.refl _
+
+theorem sortQ_perm : ∀ l : List Q, (sortQ l).Perm l
+  | [] => List.Perm.refl _
+  | x :: r => (insertQ_perm x (sortQ r)).trans ((sortQ_perm r).cons x)
+
+def SortedQ (l : List Q) : Prop := l.Pairwise (fun a b => a.le b = true)
+
+theorem insertQ_sorted (x : Q) (hx : 0 < x.den) : ∀ l : List Q, QPos l → SortedQ l → SortedQ (insertQ x l)
+  | [], _, _ => by simp [insertQ, SortedQ]
+  | y :: r, hp, hs => by
+    have hy : 0 < y.den := hp y List.mem_cons_self
+    have hr : QPos r := fun q hq => hp q (List.mem_cons_of_mem _ hq)
+    unfold SortedQ at hs ⊢
+    rw [List.pairwise_cons] at hs
+    simp only [insertQ]
+    split
+    · rename_i hlt
+      rw [List.pairwise_cons]
+      refine ⟨?_, insertQ_sorted x hx r hr hs.2⟩
+      intro z hz
+      rcases List.mem_cons.mp ((insertQ_perm x r).mem_iff.mp hz) with rfl | hz
+      · exact Q.le_of_lt' hlt
+      · exact hs.1 z hz
+    · rename_i hlt
+      rw [List.pairwise_cons]
+      refine ⟨?_, List.pairwise_cons.mpr hs⟩
+      intro z hz
+      have hxy : x.le y = true := Q.le_of_not_lt' hlt
+      rcases List.mem_cons.mp hz with rfl | hz
+      · exact hxy
+      · exact Q.le_trans' hy hxy (hs.1 z hz)
+
+theorem sortQ_pos {l : List Q} (h : QPos l) : QPos (sortQ l) :=
+  fun q hq => h q ((sortQ_perm l).mem_iff.mp hq)
+
+theorem sortQ_sorted : ∀ l : List Q, QPos l → SortedQ (sortQ l)
+  | [], _ => by simp [sortQ, SortedQ]
+  | x :: r, h => by
+    have hr : QPos r := fun q hq => h q (List.mem_cons_of_mem _ hq)
+    exact insertQ_sorted x (h x List.mem_cons_self) (sortQ r) (sortQ_pos hr) (sortQ_sorted r hr)
+
+theorem pairUp_mem : ∀ (l : List Q) (c d : Q), (c, d) ∈ pairUp l →
+    ∃ pre post, l = pre ++ c :: d :: post ∧ pre.length % 2 = 0
+  | [], _, _, h => by simp [pairUp] at h
+  | [_], _, _, h => by simp [pairUp] at h
+  | a :: b :: r, c, d, h => by
+    simp only [pairUp, List.mem_cons, Prod.mk.injEq] at h
+    rcases h with ⟨rfl, rfl⟩ | h
+    · exact ⟨[], r, rfl, rfl⟩
+    · obtain ⟨pre, post, e, hl⟩ := pairUp_mem r c d h
+      exact ⟨a :: b :: pre, post, by simp [e], by simp [List.length_cons]; omega⟩
+
+/-- a grid point strictly inside the section `(c, d)` of a sorted crossing list: every crossing is strictly left or
+strictly right of it, and the number of those to the right is `1 + |post|` -/
+theorem section_count {p : Pt} {pre post : List Q} {c d : Q} (hpos : QPos (pre ++ c :: d :: post))
+    (hs : SortedQ (pre ++ c :: d :: post)) (hc : leftOf p c = true) (hd : rightOf p d = true) :
+    ((pre ++ c :: d :: post).filter (rightOf p)).length = 1 + post.length ∧
+    ∀ x ∈ pre ++ c :: d :: post, rightOf p x = true ∨ leftOf p x = true := by
+  unfold SortedQ at hs
+  rw [List.pairwise_append] at hs
+  obtain ⟨_, hcd, hpre⟩ := hs
+  rw [List.pairwise_cons] at hcd
+  obtain ⟨hc', hdp⟩ := hcd
+  rw [List.pairwise_cons] at hdp
+  have hcden : 0 < c.den := hpos c (by simp)
+  have hdden : 0 < d.den := hpos d (by simp)
+  have hP : 0 < (Q.ofInt p.x).den := by simp [Q.ofInt]
+  have hleft : ∀ x ∈ pre, leftOf p x = true := fun x hx =>
+    Q.lt_of_le_of_lt' (hpos x (by simp [hx])) hcden (hpre x hx c (by simp)) hc
+  have hright : ∀ x ∈ post, rightOf p x = true := fun x hx =>
+    Q.lt_of_lt_of_le' hdden (hpos x (by simp [hx])) hd (hdp.1 x hx)
+  have hnr : ∀ x, leftOf p x = true → rightOf p x = false := fun x hx => Q.lt_asymm' hx
+  constructor
+  · rw [List.filter_append, List.filter_cons, List.filter_cons]
+    have e1 : pre.filter (rightOf p) = [] := by
+      rw [List.filter_eq_nil_iff]; intro x hx; simp [hnr x (hleft x hx)]
+    have e2 : post.filter (rightOf p) = post := by
+      rw [List.filter_eq_self]; exact hright
+    simp [e1, e2, hnr c hc, hd]; omega
+  · intro x hx
+    rcases List.mem_append.mp hx with hx | hx
+    · exact Or.inr (hleft x hx)
+    · rcases List.mem_cons.mp hx with rfl | hx
+      · exact Or.inr hc
+      · rcases List.mem_cons.mp hx with rfl | hx
+        · exact Or.inl hd
+        · exact Or.inl (hright x hx)
+
+/-! ## the even–odd theorem -/
+
+theorem Q.div_den_pos (n d : Int) : 0 < (Q.div n d).den := by
+  unfold Q.div
+  split
+  · simp
+  · split <;> simp <;> omega
+
+theorem edgeCrossing_den_pos {y2 : Int} {a b : Pt} {x : Q} (h : edgeCrossing y2 a b = some x) : 0 < x.den := by
+  unfold edgeCrossing at h
+  repeat' split at h
+  all_goals (first | (cases h; done) | skip)
+  all_goals (cases h)
+  · simp [Q.ofInt]
+  · simp only [Q.add, Q.ofInt]
+    have := Q.div_den_pos ((y2 - 2 * a.y) * (b.x - a.x)) (2 * (b.y - a.y))
+    omega
+
+theorem ringCrossings_pos (y2 : Int) (ring : List Pt) : QPos (ringCrossings y2 ring) := by
+  intro q hq
+  unfold ringCrossings at hq
+  obtain ⟨e, _, he⟩ := List.mem_filterMap.mp hq
+  exact edgeCrossing_den_pos he
+
+theorem flatMap_pos (y2 : Int) (rings : List (List Pt)) : QPos (rings.flatMap (ringCrossings y2)) := by
+  intro q hq
+  obtain ⟨r, _, hr⟩ := List.mem_flatMap.mp hq
+  exact ringCrossings_pos y2 r q hr
+
+theorem flatMap_even {α : Type} (f : α → List Q) : ∀ (l : List α), (∀ a ∈ l, (f a).length % 2 = 0) →
+    (l.flatMap f).length % 2 = 0
+  | [], _ => by simp
+  | a :: r, h => by
+    have h1 := h a List.mem_cons_self
+    have h2 := flatMap_even f r (fun b hb => h b (List.mem_cons_of_mem _ hb))
+    simp only [List.flatMap_cons, List.length_append]; omega
+
+theorem parity_flatMap {α : Type} (f : α → List Q) (q : Q → Bool) : ∀ (l : List α),
+    ((l.flatMap f).filter q).length % 2 = (l.filter (fun a => ((f a).filter q).length % 2 == 1)).length % 2
+  | [] => by simp
+  | a :: r => by
+    have ih := parity_flatMap f q r
+    simp only [List.flatMap_cons, List.filter_append, List.length_append, List.filter_cons]
+    split
+    · rename_i h; simp only [beq_iff_eq] at h; simp only [List.length_cons]; omega
+    · rename_i h; simp only [beq_iff_eq] at h; omega
+
+/-- **even–odd**: a grid point strictly inside a section of the scan line (which passes through no vertex of the
+closed rings) lies on no ring and inside an odd number of them -/
+theorem section_point_parity {p : Pt} {rings : List (List Pt)} {s : Q × Q}
+    (hoff : ∀ ring ∈ rings, ∀ v ∈ ring, v.y ≠ p.y)
+    (hcl : ∀ ring ∈ rings, ring = [] ∨ isClosedRing ring = true)
+    (hs : s ∈ sections (2 * p.y) rings) (h1 : leftOf p s.1 = true) (h2 : rightOf p s.2 = true) :
+    (∀ ring ∈ rings, locateInRing p ring ≠ .boundary) ∧
+    (rings.filter (fun r => locateInRing p r == .interior)).length % 2 = 1 := by
+  unfold sections at hs
+  obtain ⟨pre, post, hL, hpre⟩ := pairUp_mem _ s.1 s.2 hs
+  have hposL := sortQ_pos (flatMap_pos (2 * p.y) rings)
+  have hsorted := sortQ_sorted _ (flatMap_pos (2 * p.y) rings)
+  have hperm := sortQ_perm (rings.flatMap (ringCrossings (2 * p.y)))
+  rw [hL] at hposL hsorted hperm
+  obtain ⟨hcnt, hall⟩ := section_count hposL hsorted h1 h2
+  have heven : (rings.flatMap (ringCrossings (2 * p.y))).length % 2 = 0 :=
+    flatMap_even _ rings (fun r hr => ring_crossings_even (hoff r hr) (hcl r hr))
+  have hlen := hperm.length_eq
+  simp only [List.length_append, List.length_cons] at hlen
+  have hodd : ((rings.flatMap (ringCrossings (2 * p.y))).filter (rightOf p)).length % 2 = 1 := by
+    rw [← (hperm.filter (rightOf p)).length_eq, hcnt]; omega
+  have hall' : ∀ x ∈ rings.flatMap (ringCrossings (2 * p.y)), rightOf p x = true ∨ leftOf p x = true :=
+    fun x hx => hall x (hperm.mem_iff.mpr hx)
+  have hoffb : ∀ ring ∈ rings, ∀ e ∈ edges ring, onSegment e.1 e.2 p = false := by
+    intro ring hr e he
+    by_contra hcon
+    have hon : onSegment e.1 e.2 p = true := by simpa using hcon
+    have hv := edges_off (hoff ring hr) e he
+    obtain ⟨x, hx, hxr, hxl⟩ := onSegment_crossing hv.1 hv.2 hon
+    have hmem : x ∈ rings.flatMap (ringCrossings (2 * p.y)) :=
+      List.mem_flatMap.mpr ⟨ring, hr, List.mem_filterMap.mpr ⟨e, he, hx⟩⟩
+    rcases hall' x hmem with h | h <;> simp_all
+  have hloc : ∀ ring ∈ rings, locateInRing p ring =
+      if ((ringCrossings (2 * p.y) ring).filter (rightOf p)).length % 2 == 1 then .interior else .exterior := by
+    intro ring hr
+    rw [locateInRing_off (hoffb ring hr), crossCount_eq _ (edges_off (hoff ring hr))]
+    rfl
+  constructor
+  · intro ring hr
+    rw [hloc ring hr]; split <;> simp
+  · rw [parity_flatMap] at hodd
+    have : rings.filter (fun r => locateInRing p r == .interior) =
+        rings.filter (fun r => ((ringCrossings (2 * p.y) r).filter (rightOf p)).length % 2 == 1) := by
+      apply List.filter_congr
+      intro r hr
+      rw [hloc r hr]
+      split <;> simp_all
+    rw [this]; exact hodd
+
+/-- … hence in the interior of the polygon, given what validity implies at that point: a hole that contains it lies in
+the shell, and no two holes contain it -/
+theorem section_point_interior {p : Pt} {shell : List Pt} {holes : List (List Pt)} {s : Q × Q}
+    (hoff : ∀ ring ∈ shell :: holes, ∀ v ∈ ring, v.y ≠ p.y)
+    (hcl : ∀ ring ∈ shell :: holes, ring = [] ∨ isClosedRing ring = true)
+    (hs : s ∈ sections (2 * p.y) (shell :: holes)) (h1 : leftOf p s.1 = true) (h2 : rightOf p s.2 = true)
+    (nest : ∀ h ∈ holes, locateInRing p h = .interior → locateInRing p shell = .interior)
+    (apart : (holes.filter (fun h => locateInRing p h == .interior)).length ≤ 1) :
+    locateInPolygon p (shell :: holes) = .interior := by
+  obtain ⟨hnb, hodd⟩ := section_point_parity hoff hcl hs h1 h2
+  have hnbh : holes.any (fun h => locateInRing p h == .boundary) = false := by
+    rw [List.any_eq_false]; intro h hh; simpa using hnb h (List.mem_cons_of_mem _ hh)
+  simp only [locateInPolygon, hnbh, Bool.false_eq_true, if_false]
+  rw [List.filter_cons] at hodd
+  cases hsh : locateInRing p shell with
+  | boundary => exact absurd hsh (hnb shell List.mem_cons_self)
+  | interior =>
+    simp only [hsh, beq_self_eq_true, if_true, List.length_cons] at hodd
+    have h0 : (holes.filter (fun h => locateInRing p h == .interior)).length = 0 := by omega
+    have hnone : holes.any (fun h => locateInRing p h == .interior) = false := by
+      rw [List.any_eq_false]; intro h hh hc
+      have : h ∈ holes.filter (fun h => locateInRing p h == .interior) := List.mem_filter.mpr ⟨hh, hc⟩
+      rw [List.length_eq_zero_iff.mp h0] at this; simp at this
+    simp [hnone]
+  | exterior =>
+    exfalso
+    have hne : (locateInRing p shell == Loc.interior) = false := by rw [hsh]; rfl
+    simp only [hne, Bool.false_eq_true, if_false] at hodd
+    have hpos : 0 < (holes.filter (fun h => locateInRing p h == .interior)).length := by omega
+    obtain ⟨h, hh⟩ := List.exists_mem_of_length_pos hpos
+    have hm := List.mem_filter.mp hh
+    have := nest h hm.1 (by simpa using hm.2)
+    rw [hsh] at this; cases this
+
+/-- the midpoint of a section of positive width, when it is a grid abscissa, is strictly inside the section -/
+theorem midpoint_strictly_inside {p : Pt} {s : Q × Q} (h1 : 0 < s.1.den) (h2 : 0 < s.2.den) (hw : s.1.lt s.2 = true)
+    (hm : 2 * p.x * ((s.1.den : Int) * s.2.den) = s.1.num * s.2.den + s.2.num * s.1.den) :
+    leftOf p s.1 = true ∧ rightOf p s.2 = true := by
+  have hd1 : (0 : Int) < s.1.den := by exact_mod_cast h1
+  have hd2 : (0 : Int) < s.2.den := by exact_mod_cast h2
+  have hw' : s.1.num * s.2.den < s.2.num * s.1.den := by simpa [Q.lt] using hw
+  have e1 : leftOf p s.1 = true ↔ s.1.num < p.x * s.1.den := by simp [leftOf, Q.lt, Q.ofInt]
+  have e2 : rightOf p s.2 = true ↔ p.x * s.2.den < s.2.num := by simp [rightOf, Q.lt, Q.ofInt]
+  rw [e1, e2]
+  constructor
+  · by_contra hc
+    have := mul_le_mul_of_nonneg_right (not_lt.mp hc) (le_of_lt hd2)
+    nlinarith
+  · by_contra hc
+    have := mul_le_mul_of_nonneg_right (not_lt.mp hc) (le_of_lt hd1)
+    nlinarith
+
+theorem sections_pos {y2 : Int} {rings : List (List Pt)} {s : Q × Q} (hs : s ∈ sections y2 rings) :
+    0 < s.1.den ∧ 0 < s.2.den := by
+  unfold sections at hs
+  obtain ⟨pre, post, hL, _⟩ := pairUp_mem _ s.1 s.2 hs
+  have hpos := sortQ_pos (flatMap_pos y2 rings)
+  rw [hL] at hpos
+  exact ⟨hpos s.1 (by simp), hpos s.2 (by simp)⟩
 
 end GeosModel.Construct
